@@ -3,6 +3,7 @@
 package main
 
 import (
+	"unicode/utf8"
 	"fmt"
 	"sort"
 	"strings"
@@ -145,6 +146,19 @@ func genProgram(r *rng, l language.Language, n int) string {
 	words := []string{"x", "foo", " ", " ", "  ", "é", "日本", "\xff", "\t", "1", "=", ";", "(", ")"}
 	var sb strings.Builder
 	for i := 0; i < n; i++ {
+		if r.chance(1, 30) {
+			// pad the current line so that the next token starts at (or next to) a column where a narrow counter
+			// wraps (multiples of 2^8 runes; longer lines would be beyond what the extracted reference lexer handles quickly)
+			cur := sb.String()
+			col := utf8.RuneCountInString(cur[strings.LastIndexByte(cur, '\n')+1:])
+			target := []int{256, 256, 256, 512, 768}[r.intn(5)] + []int{0, 0, 0, -1, 1}[r.intn(5)]
+			if pad := target - col; pad > 0 {
+				sb.WriteString(strings.Repeat(" ", pad-1))
+				sb.WriteString("x")
+				sb.WriteString(alpha[r.intn(len(alpha))])
+				continue
+			}
+		}
 		switch r.intn(10) {
 		case 0, 1, 2, 3:
 			sb.WriteString(alpha[r.intn(len(alpha))])
